@@ -130,8 +130,12 @@ def ad_grad(E, s):
     tracked = s['tracked']          # e.g. {'x': [0, 1], 'y': None}; None = all cores
     api = s.get('api', 'grad')
     objs = {'x': x, 'y': y, 'A': A}
-    for nm, idx in tracked.items():
-        tt.grad.watch(objs[nm], idx) if idx is not None else tt.grad.watch(objs[nm])
+    if s.get('watch') == 'list' and all(idx is None for idx in tracked.values()):
+        tt.grad.watch_list([objs[nm] for nm in tracked])
+    else:
+        for nm, idx in tracked.items():
+            tt.grad.watch(objs[nm], idx) if idx is not None else tt.grad.watch(objs[nm])
+    E.true('watched', all(c.requires_grad for nm, idx in tracked.items() for k, c in enumerate(objs[nm].cores) if idx is None or k in [i % len(objs[nm].cores) for i in idx]))
     xd, yd = dense(E, x.cores), dense(E, y.cores)
     if A is not None:
         Ad = dense(E, A.cores)
@@ -176,6 +180,11 @@ def ad_grad(E, s):
                     E.true('grad_shape_%s%d' % (nm, k), gk is not None and list(gk.shape) == list(objs[nm].cores[k].shape))
                     if gk is not None:
                         E.eq('grad_%s%d' % (nm, k), gk, ref)
+    if s.get('unwatch'):
+        for nm in names:
+            tt.grad.unwatch(objs[nm])
+        E.true('unwatched', all(not c.requires_grad for nm in names for c in objs[nm].cores))
+        E.eq('unwatched_value', dense(E, x.cores), xd)
 
 
 @scenario
